@@ -35,10 +35,21 @@ impl FmtReq {
     pub fn default_with(total: u32) -> FmtReq {
         FmtReq { bps: 512, bpc: None, fat: None, root_entries: None, fats: None, media: None, heads: None, spt: None, drive: None, vol_id: None, label: None, total_sectors: Some(total), device_bytes: 0 }
     }
+    /// The builder calls in one of two orders (cluster size before or after the sector size), chosen from the request
+    /// itself: the setters are documented as independent, so a request must mean the same in either order.
     pub fn options(&self) -> fatfs::FormatVolumeOptions {
-        let mut o = fatfs::FormatVolumeOptions::new().bytes_per_sector(self.bps);
-        if let Some(b) = self.bpc {
-            o = o.bytes_per_cluster(b);
+        let cluster_first = (self.effective_total() / 3 + self.bps as u64 / 512) % 2 == 1;
+        let mut o = fatfs::FormatVolumeOptions::new();
+        if cluster_first {
+            if let Some(b) = self.bpc {
+                o = o.bytes_per_cluster(b);
+            }
+        }
+        o = o.bytes_per_sector(self.bps);
+        if !cluster_first {
+            if let Some(b) = self.bpc {
+                o = o.bytes_per_cluster(b);
+            }
         }
         if let Some(f) = self.fat {
             o = o.fat_type(crate::vol::fat_type_of(f));
@@ -291,10 +302,12 @@ pub fn real_format(req: &FmtReq) -> FmtOutcome {
     if short {
         dev.with(|d| d.short_io = vol_bytes.wrapping_mul(0x9E37_79B9_7F4A_7C15) | 1);
     }
-    let opts = req.options();
+    // the options are built under the guard too: every value handed to a setter is inside its documented domain, so a
+    // panic there is a panic of formatting
+    let req2 = req.clone();
     let mut dh = dev.handle();
     dev.with(|d| d.budget = 40_000_000);
-    let r = guard(move || fatfs::format_volume(&mut dh, opts));
+    let r = guard(move || fatfs::format_volume(&mut dh, req2.options()));
     let budget_hit = dev.with(|d| d.budget_hit);
     dev.with(|d| {
         d.budget = u64::MAX;
@@ -379,8 +392,8 @@ pub fn real_format(req: &FmtReq) -> FmtOutcome {
 /// evaluate one size through the hook only
 pub fn hook_eval(req: &FmtReq) -> Result<Option<(u8, u64)>, String> {
     let t = req.total_sectors.expect("hook needs total_sectors");
-    let opts = req.options();
-    let r = guard(move || fatfs::verif_format_boot_sector(&opts, t));
+    let req2 = req.clone();
+    let r = guard(move || fatfs::verif_format_boot_sector(&req2.options(), t));
     match r {
         Caught::Panic(p) => Err(format!("panicked: {}", p)),
         Caught::Ok(Err(fatfs::Error::InvalidInput)) => Ok(None),
